@@ -1,6 +1,10 @@
-# strict/functor/optic.rs: the two free functions the optic is assembled from.  Proved: well-formedness,
-# panic-freedom and types (C14 typing, C05).  The Optic struct itself holds a Box<dyn Fn>, which Verus rejects,
-# so Optic::{map_object, map_operations, adapt} and the derivative clause are bounded (module C14).
+# strict/functor/optic.rs.  Proved: interleave_blocks, partial_dagger (well-formedness, panic-freedom, types: C14 typing,
+# C05), Optic::map_object (block-wise F(A) ++ R(A)), Optic::adapt (type F A * R B -> F B * R A), Optic::map_operations
+# (type interleave(F A, R A) -> interleave(F B, R B), sizes, no unwrap() can fail, for every forward / reverse functor
+# and residual typed as lenses with that residual: optic_pre) and Optic::map_arrow (the same type for EVERY diagram, by
+# the generic define_map_arrow).  The Optic struct holds a Box<dyn Fn>, which Verus rejects: the struct is declared
+# with an opaque stand-in for that field and the call of the boxed closure goes through it (rule T14).  Functoriality
+# up to isomorphism, monogamy of the adapted form and the derivative clause are bounded (module C14).
 OP = 'src/strict/functor/optic.rs'
 
 module('optic', uses=['vstd::std_specs::cmp::*'])
@@ -70,6 +74,29 @@ pub proof fn lemma_interleave_values<T>(fs: Seq<usize>, rs: Seq<usize>, fv: Seq<
 }
 ''')
 
+raw(r'''
+/// tg is the block-wise interleaving  a_0 b_0 a_1 b_1 ...  of two segmented arrays with block sizes fs, rs and values fv, rv
+pub open spec fn is_interleaved<O>(tg: Seq<O>, fs: Seq<usize>, fv: Seq<O>, rs: Seq<usize>, rv: Seq<O>) -> bool {
+    let s2 = Seq::new(fs.len(), |m: int| (fs[m] + rs[m]) as usize);
+    &&& fs.len() == rs.len() && tg.len() == fv.len() + rv.len() && total(s2) == fv.len() + rv.len()
+    &&& (forall|i: int, j: int| 0 <= i < fs.len() && 0 <= j < fs[i] ==> tg[#[trigger] seg_at(s2, i, j)] == fv[psum(fs, i) + j])
+    &&& (forall|i: int, j: int| 0 <= i < fs.len() && 0 <= j < rs[i] ==> #[trigger] tg[seg_at(s2, i, fs[i] + j)] == rv[psum(rs, i) + j])
+}
+
+pub proof fn lemma_interleaved_unique<O>(t1: Seq<O>, t2: Seq<O>, fs: Seq<usize>, fv: Seq<O>, rs: Seq<usize>, rv: Seq<O>)
+    requires is_interleaved(t1, fs, fv, rs, rv), is_interleaved(t2, fs, fv, rs, rv), forall|i: int| 0 <= i < fs.len() ==> fs[i] + rs[i] <= usize::MAX
+    ensures t1 =~= t2
+{
+    let s2 = Seq::new(fs.len(), |m: int| (fs[m] + rs[m]) as usize);
+    assert forall|m: int| 0 <= m < t1.len() implies t1[m] == t2[m] by {
+        let (p, j) = lemma_seg_find(s2, m);
+        if j < fs[p] { assert(t1[seg_at(s2, p, j)] == fv[psum(fs, p) + j]); assert(t2[seg_at(s2, p, j)] == fv[psum(fs, p) + j]); }
+        else { let j2 = j - fs[p]; assert(t1[seg_at(s2, p, fs[p] + j2)] == rv[psum(rs, p) + j2]); assert(t2[seg_at(s2, p, fs[p] + j2)] == rv[psum(rs, p) + j2]); }
+    }
+}
+
+''')
+
 fn(OP, 'interleave_blocks', kind='free', status='P', props=['C14', 'C05'], where_add='O: Clone + PartialEq, A: Clone',
    requires=['a.wf()', 'b.wf()', 'a.sources.table@.len() == b.sources.table@.len()', 'lawful_clone::<O>()',
              'small(a.values@.len())', 'small(b.values@.len())', 'small(a.sources.table@.len())',
@@ -81,7 +108,8 @@ fn(OP, 'interleave_blocks', kind='free', status='P', props=['C14', 'C05'], where
             ('C14.interleave-target', '''({ let fs = a.sources.table@; let rs = b.sources.table@; let s2 = Seq::new(fs.len(), |m: int| (fs[m] + rs[m]) as usize);
                 r.t.table@.len() == a.values@.len() + b.values@.len() && total(s2) == a.values@.len() + b.values@.len()
                 && (forall|i: int, j: int| 0 <= i < fs.len() && 0 <= j < fs[i] ==> r.tgt_type()[#[trigger] seg_at(s2, i, j)] == a.values@[psum(fs, i) + j])
-                && (forall|i: int, j: int| 0 <= i < fs.len() && 0 <= j < rs[i] ==> #[trigger] r.tgt_type()[seg_at(s2, i, fs[i] + j)] == b.values@[psum(rs, i) + j]) })''')],
+                && (forall|i: int, j: int| 0 <= i < fs.len() && 0 <= j < rs[i] ==> #[trigger] r.tgt_type()[seg_at(s2, i, fs[i] + j)] == b.values@[psum(rs, i) + j]) })'''),
+            ('C14.interleave-target-pred', 'is_interleaved(r.tgt_type(), a.sources.table@, a.values@, b.sources.table@, b.values@)')],
    proofs=[('before:let t = ab', '''lemma_seg_wf_sources(ab.sources, ab.values@.len());
             let n = a.sources.table@.len() as int;
             assert(2 * n == n * 2 && 2 * n == n + n) by (nonlinear_arith);
@@ -144,7 +172,7 @@ pub struct Optic<F, R, O1, A1, O2, A2> {
 fn(OP, 'map_object', trait='Functor', self_ty='Optic', status='P', props=['C14', 'C05'], rename='optic_map_object',
    rules={'self_rename': ['this', '&Optic<F, R, O1, A1, O2, A2>'], 'ops': ['add', 'sub']},
    generics_add=['F: Functor<O1, A1, O2, A2>, R: Functor<O1, A1, O2, A2>, O1: Clone, A1: Clone, O2: Clone, A2'],
-   requires=['lawful_clone::<O1>()', 'lawful_clone::<O2>()', 'small(a@.len())',
+   requires=['lawful_clone::<O1>()', 'lawful_clone::<O2>()', 'small(a@.len())', 'this.fwd.obj_pre(a@)', 'this.rev.obj_pre(a@)',
              'small(total(flat_sizes(a@, |o: O1| this.fwd.obj(o))) as nat)', 'small(total(flat_sizes(a@, |o: O1| this.rev.obj(o))) as nat)'],
    ensures=[('C14.optic-map_object', '''r.wf() && r.sources.table@.len() == a@.len()
                 && (forall|i: int| 0 <= i < a@.len() ==> #[trigger] seg_is(r, i, this.fwd.obj(a@[i]) + this.rev.obj(a@[i])))''')],
@@ -247,6 +275,7 @@ fn(OP, 'adapt', self_ty='Optic', status='P', props=['C14', 'C05'], rename='optic
    generics_add=['F: Functor<O1, A1, O2, A2>, R: Functor<O1, A1, O2, A2>, O1: Clone, A1: Clone, O2: Clone + PartialEq, A2: Clone'],
    requires=['c.wf()', 'lawful_clone::<O1>()', 'lawful_clone::<O2>()', 'lawful_clone::<A2>()', 'lawful_eq::<O2>()',
              'adapt_sizes(*c, a@, b@, |o: O1| this.fwd.obj(o), |o: O1| this.rev.obj(o))',
+             'this.fwd.obj_pre(a@)', 'this.fwd.obj_pre(b@)', 'this.rev.obj_pre(a@)', 'this.rev.obj_pre(b@)',
              # c has the optic type interleave(F A, R A) -> interleave(F B, R B)
              'is_flat_image(c.src_type(), a@, |o: O1| this.fwd.obj(o) + this.rev.obj(o))',
              'is_flat_image(c.tgt_type(), b@, |o: O1| this.fwd.obj(o) + this.rev.obj(o))'],
@@ -280,3 +309,225 @@ fn(OP, 'adapt', self_ty='Optic', status='P', props=['C14', 'C05'], rename='optic
             assert(d.src_type().subrange(0, fa_t.len() as int) =~= fa_t && d.src_type().subrange(fa_t.len() as int, (fa_t.len() + ra_t.len()) as int) =~= ra_t);
             assert(d.tgt_type().subrange(0, fb_t.len() as int) =~= fb_t && d.tgt_type().subrange(fb_t.len() as int, (fb_t.len() + rb_t.len()) as int) =~= rb_t);
             let w1 = fa_t + rb_t; let w2 = fb_t + ra_t;''')])
+
+# ---------------------------------------------------------------------------------------------
+# Optic::map_operations: the optic image of a tensoring of operations has type
+# interleave(F A, R A) -> interleave(F B, R B), is well-formed, and none of its unwrap()s can fail -- for EVERY forward
+# functor, reverse functor and residual that are typed as lenses with that residual (optic_pre).  The call of the boxed
+# residual closure goes through the opaque stand-in (rule T14).
+# ---------------------------------------------------------------------------------------------
+raw(r'''
+impl<O1, A1, O2> ResidualBox<O1, A1, O2> {
+    /// what the residual closure may return for `ops` (uninterpreted: the closure is arbitrary user code)
+    pub uninterp spec fn res_post(&self, ops: Operations<O1, A1>, m: IndexedCoproduct<SemifiniteFunction<O2>>) -> bool;
+
+    #[verifier::external_body]
+    pub fn call(&self, ops: &Operations<O1, A1>) -> (r: IndexedCoproduct<SemifiniteFunction<O2>>)
+        ensures self.res_post(*ops, r)
+    { unimplemented!() }
+}
+
+/// sizes of the per-operation blocks of an expanded type list: operation i owns the blocks psum(bs, i) .. psum(bs, i + 1) of fbs
+pub open spec fn op_sizes(bs: Seq<usize>, fbs: Seq<usize>) -> Seq<usize> {
+    Seq::new(bs.len(), |i: int| (psum(fbs, psum(bs, i + 1)) - psum(fbs, psum(bs, i))) as usize)
+}
+
+/// the per-operation block sizes are in range and sum up like the blocks they merge
+pub proof fn lemma_op_sizes(bs: Seq<usize>, fbs: Seq<usize>)
+    requires total(bs) == fbs.len(), total(fbs) <= usize::MAX
+    ensures op_sizes(bs, fbs).len() == bs.len(),
+        forall|i: int| 0 <= i < bs.len() ==> (#[trigger] op_sizes(bs, fbs)[i]) == psum(fbs, psum(bs, i + 1)) - psum(fbs, psum(bs, i)),
+        forall|i: int| 0 <= i < bs.len() ==> (#[trigger] op_sizes(bs, fbs)[i]) <= total(fbs),
+        forall|i: int| 0 <= i <= bs.len() ==> #[trigger] psum(op_sizes(bs, fbs), i) == psum(fbs, psum(bs, i)),
+        total(op_sizes(bs, fbs)) == total(fbs),
+{
+    let r = op_sizes(bs, fbs);
+    assert forall|i: int| 0 <= i < bs.len() implies (#[trigger] op_sizes(bs, fbs)[i]) == psum(fbs, psum(bs, i + 1)) - psum(fbs, psum(bs, i)) && op_sizes(bs, fbs)[i] <= total(fbs) by {
+        lemma_psum_mono(bs, 0, i); lemma_psum_mono(bs, i, i + 1); lemma_psum_mono(bs, i + 1, bs.len() as int);
+        lemma_psum_mono(fbs, 0, psum(bs, i)); lemma_psum_mono(fbs, psum(bs, i), psum(bs, i + 1)); lemma_psum_mono(fbs, psum(bs, i + 1), fbs.len() as int);
+        let d = psum(fbs, psum(bs, i + 1)) - psum(fbs, psum(bs, i));
+        assert(0 <= d <= total(fbs));
+        assert(r[i] == d as usize);
+    }
+    assert forall|i: int| 0 <= i <= bs.len() implies #[trigger] psum(op_sizes(bs, fbs), i) == psum(fbs, psum(bs, i)) by { lemma_segsum_total(bs, fbs, r, i); }
+    assert(psum(r, bs.len() as int) == psum(fbs, psum(bs, bs.len() as int)));
+}
+
+/// What Optic::map_operations needs from its three ingredients, for the batch `ops`: the residual has one block per
+/// operation; the forward map of (any clone of) ops has type  F(A) -> interleave_i(F(B_i), M_i);  the reverse map has type
+/// interleave_i(M_i, R(B_i)) -> R(A);  and everything is small enough for machine arithmetic.
+pub open spec fn optic_pre<F: Functor<O1, A1, O2, A2>, R: Functor<O1, A1, O2, A2>, O1: Clone, A1: Clone, O2, A2>(this: Optic<F, R, O1, A1, O2, A2>, ops: Operations<O1, A1>) -> bool {
+    let fobj = |o: O1| this.fwd.obj(o); let robj = |o: O1| this.rev.obj(o);
+    let av = ops.a.values@; let bv = ops.b.values@; let bs = ops.b.sources.table@;
+    &&& ops.wf() && tiny(av.len()) && tiny(bv.len()) && tiny(ops.x@.len())
+    &&& tiny(total(flat_sizes(av, fobj)) as nat) && tiny(total(flat_sizes(av, robj)) as nat)
+    &&& tiny(total(flat_sizes(bv, fobj)) as nat) && tiny(total(flat_sizes(bv, robj)) as nat)
+    &&& forall|m: IndexedCoproduct<SemifiniteFunction<O2>>| #[trigger] this.residual.res_post(ops, m) ==> m.wf() && m.sources.table@.len() == ops.x@.len() && tiny(m.values@.len())
+    &&& this.fwd.obj_pre(av) && this.fwd.obj_pre(bv) && this.rev.obj_pre(av) && this.rev.obj_pre(bv)
+    &&& forall|p: int| 0 <= p < av.len() ==> this.fwd.obj(#[trigger] av[p]).len() + this.rev.obj(av[p]).len() <= usize::MAX
+    &&& forall|p: int| 0 <= p < bv.len() ==> this.fwd.obj(#[trigger] bv[p]).len() + this.rev.obj(bv[p]).len() <= usize::MAX
+    &&& forall|o1: Operations<O1, A1>| #[trigger] ops_same(o1, ops) ==> tiny(this.fwd.ops_bound(o1)) && tiny(this.rev.ops_bound(o1)) && this.fwd.ops_pre(o1) && this.rev.ops_pre(o1)
+            && is_flat_image(this.fwd.ops_src(o1), av, fobj) && is_flat_image(this.rev.ops_tgt(o1), av, robj)
+    &&& forall|o1: Operations<O1, A1>, m: IndexedCoproduct<SemifiniteFunction<O2>>, fbv: Seq<O2>, rbv: Seq<O2>|
+            #[trigger] ops_same(o1, ops) && #[trigger] this.residual.res_post(ops, m) && #[trigger] is_flat_image(fbv, bv, fobj) && #[trigger] is_flat_image(rbv, bv, robj) ==>
+               is_interleaved(this.fwd.ops_tgt(o1), op_sizes(bs, flat_sizes(bv, fobj)), fbv, m.sources.table@, m.values@)
+            && is_interleaved(this.rev.ops_src(o1), m.sources.table@, m.values@, op_sizes(bs, flat_sizes(bv, robj)), rbv)
+}
+''', tag='T:Optic-residual')
+
+fn(OP, 'map_operations', trait='Functor', self_ty='Optic', status='P', props=['C14', 'C05'], rename='optic_map_operations',
+   rules={'self_rename': ['this', '&Optic<F, R, O1, A1, O2, A2>']},
+   generics_add=['F: Functor<O1, A1, O2, A2>, R: Functor<O1, A1, O2, A2>, O1: Clone, A1: Clone, O2: Clone + PartialEq, A2: Clone'],
+   requires=['optic_pre(*this, ops)', 'lawful_clone::<O1>()', 'lawful_clone::<A1>()', 'lawful_clone::<O2>()', 'lawful_clone::<A2>()', 'lawful_eq::<O2>()'],
+   ensures=[('C14.optic-map_operations-wf', 'r.wf()'),
+            ('C14.optic-map_operations-sizes', 'oh_sizes_le(r, 0xC00_0000)'),
+            ('C14.optic-map_operations-typed', '''r.src_type() =~= flat(ops.a.values@, |o: O1| this.fwd.obj(o) + this.rev.obj(o)) && r.tgt_type() =~= flat(ops.b.values@, |o: O1| this.fwd.obj(o) + this.rev.obj(o))'''),
+            ('C14.optic-map_operations-type', '''is_flat_image(r.src_type(), ops.a.values@, |o: O1| this.fwd.obj(o) + this.rev.obj(o))
+                && is_flat_image(r.tgt_type(), ops.b.values@, |o: O1| this.fwd.obj(o) + this.rev.obj(o))''')],
+   proofs=[G('start', 'hide(is_pushout); hide(is_tensor); hide(is_dagger); hide(is_identity_on);'),
+           ('before:let fwd_interleave = ', '''assert(lawful_clone::<usize>());
+            let fobj = |o: O1| this.fwd.obj(o); let robj = |o: O1| this.rev.obj(o);
+            let av = ops.a.values@; let bv = ops.b.values@; let bs = ops.b.sources.table@; let n = ops.x@.len() as int;
+            lemma_values_flat(fa, av, fobj); lemma_values_flat(ra, av, robj); lemma_values_flat(fb, bv, fobj); lemma_values_flat(rb, bv, robj);
+            lemma_seg_wf_sources(fa.sources, fa.values@.len()); lemma_seg_wf_sources(ra.sources, ra.values@.len());
+            lemma_seg_wf_sources(fb.sources, fb.values@.len()); lemma_seg_wf_sources(rb.sources, rb.values@.len());
+            lemma_seg_wf_sources(m.sources, m.values@.len()); lemma_seg_wf_sources(ops.b.sources, bv.len()); lemma_seg_wf_sources(ops.a.sources, av.len());
+            let fbs = fb.sources.table@; let rbs = rb.sources.table@; let ms = m.sources.table@;
+            let fsz = op_sizes(bs, fbs); let rsz = op_sizes(bs, rbs);
+            lemma_op_sizes(bs, fbs); lemma_op_sizes(bs, rbs);
+            assert forall|x: IndexedCoproduct<SemifiniteFunction<O2>>| #[trigger] seg_wf(x.sources, fb.values.spec_len()) && x.sources.table@.len() == n
+                    && (forall|i: int| 0 <= i < n ==> x.sources.table@[i] == psum(fbs, psum(bs, i + 1)) - psum(fbs, psum(bs, i))) implies x.sources.table@ == fsz by {
+                assert(x.sources.table@ =~= fsz);
+            }
+            assert forall|x: IndexedCoproduct<SemifiniteFunction<O2>>| #[trigger] seg_wf(x.sources, rb.values.spec_len()) && x.sources.table@.len() == n
+                    && (forall|i: int| 0 <= i < n ==> x.sources.table@[i] == psum(rbs, psum(bs, i + 1)) - psum(rbs, psum(bs, i))) implies x.sources.table@ == rsz by {
+                assert(x.sources.table@ =~= rsz);
+            }
+            assert(2 * n == n * 2 && 2 * n == n + n) by (nonlinear_arith);
+            let s2f = Seq::new(n as nat, |i: int| (fsz[i] + ms[i]) as usize);
+            let s2r = Seq::new(n as nat, |i: int| (ms[i] + rsz[i]) as usize);
+            assert forall|i: int| 0 <= i < n implies fsz[i] + ms[i] <= usize::MAX && ms[i] + rsz[i] <= usize::MAX by {
+                lemma_psum_mono(ms, 0, i); lemma_psum_mono(ms, i + 1, n); assert(psum(ms, i + 1) == psum(ms, i) + ms[i]);
+            }
+            lemma_interleave_offsets(fsz, ms, s2f, n);
+            lemma_interleave_offsets(ms, rsz, s2r, n);'''),
+           ('before:debug_assert_eq!(fwd.target(), fwd_interleave.source());', '''let fobj = |o: O1| this.fwd.obj(o); let robj = |o: O1| this.rev.obj(o);
+            let bv = ops.b.values@; let bs = ops.b.sources.table@;
+            let fsz = op_sizes(bs, fb.sources.table@); let rsz = op_sizes(bs, rb.sources.table@); let ms = m.sources.table@;
+            assert(fsz == op_sizes(bs, flat_sizes(bv, fobj)) && rsz == op_sizes(bs, flat_sizes(bv, robj)));
+            assert(is_interleaved(fwd_interleave.src_type(), fsz, fb.values@, ms, m.values@));
+            assert(is_interleaved(fwd.tgt_type(), fsz, fb.values@, ms, m.values@));
+            lemma_interleaved_unique(fwd.tgt_type(), fwd_interleave.src_type(), fsz, fb.values@, ms, m.values@);
+            assert(is_interleaved(rev_cointerleave.tgt_type(), ms, m.values@, rsz, rb.values@));
+            assert(is_interleaved(rev.src_type(), ms, m.values@, rsz, rb.values@));
+            lemma_interleaved_unique(rev_cointerleave.tgt_type(), rev.src_type(), ms, m.values@, rsz, rb.values@);'''),
+           ('before:let d = partial_dagger', '''let fobj = |o: O1| this.fwd.obj(o); let robj = |o: O1| this.rev.obj(o);
+            let av = ops.a.values@; let bv = ops.b.values@;
+            lemma_flat_unique(fwd.src_type(), fa.values@, av, fobj);
+            lemma_flat_unique(rev.tgt_type(), ra.values@, av, robj);
+            assert(c.src_type() =~= fa.values@ + rb.values@);
+            assert(c.tgt_type() =~= fb.values@ + ra.values@);'''),
+           ('before:let lhs = interleave_blocks(&fa, &ra).dagger();', '''let na = ops.a.values@.len() as int; let nb = ops.b.values@.len() as int;
+            assert(2 * na == na * 2 && 2 * nb == nb * 2) by (nonlinear_arith);
+            let s2a = Seq::new(na as nat, |k: int| (fa.sources.table@[k] + ra.sources.table@[k]) as usize);
+            let s2b = Seq::new(nb as nat, |k: int| (fb.sources.table@[k] + rb.sources.table@[k]) as usize);
+            assert forall|k: int| 0 <= k < na implies fa.sources.table@[k] + ra.sources.table@[k] <= usize::MAX by {
+                lemma_psum_mono(fa.sources.table@, 0, k); lemma_psum_mono(fa.sources.table@, k + 1, na); lemma_psum_mono(ra.sources.table@, 0, k); lemma_psum_mono(ra.sources.table@, k + 1, na);
+                assert(psum(fa.sources.table@, k + 1) == psum(fa.sources.table@, k) + fa.sources.table@[k] && psum(ra.sources.table@, k + 1) == psum(ra.sources.table@, k) + ra.sources.table@[k]);
+            }
+            assert forall|k: int| 0 <= k < nb implies fb.sources.table@[k] + rb.sources.table@[k] <= usize::MAX by {
+                lemma_psum_mono(fb.sources.table@, 0, k); lemma_psum_mono(fb.sources.table@, k + 1, nb); lemma_psum_mono(rb.sources.table@, 0, k); lemma_psum_mono(rb.sources.table@, k + 1, nb);
+                assert(psum(fb.sources.table@, k + 1) == psum(fb.sources.table@, k) + fb.sources.table@[k] && psum(rb.sources.table@, k + 1) == psum(rb.sources.table@, k) + rb.sources.table@[k]);
+            }
+            lemma_interleave_offsets(fa.sources.table@, ra.sources.table@, s2a, na);
+            lemma_interleave_offsets(fb.sources.table@, rb.sources.table@, s2b, nb);
+            assert(d.src_type() =~= fa.values@ + ra.values@);
+            assert(d.tgt_type() =~= fb.values@ + rb.values@);'''),
+           ('before:lhs.compose(&d).unwrap().compose(&rhs).unwrap()', '''let fobj = |o: O1| this.fwd.obj(o); let robj = |o: O1| this.rev.obj(o); let obj2 = |o: O1| this.fwd.obj(o) + this.rev.obj(o);
+            lemma_interleaved_flat(lhs.src_type(), fa, ra, ops.a.values@, fobj, robj, obj2);
+            lemma_interleaved_flat(rhs.tgt_type(), fb, rb, ops.b.values@, fobj, robj, obj2);
+            assert forall|p: int| 0 <= p < ops.a.values@.len() implies obj2(#[trigger] ops.a.values@[p]).len() <= usize::MAX by { assert(seg_is(fa, p, fobj(ops.a.values@[p])) && seg_is(ra, p, robj(ops.a.values@[p]))); }
+            assert forall|p: int| 0 <= p < ops.b.values@.len() implies obj2(#[trigger] ops.b.values@[p]).len() <= usize::MAX by { assert(seg_is(fb, p, fobj(ops.b.values@[p])) && seg_is(rb, p, robj(ops.b.values@[p]))); }
+            lemma_flat_is_flat(ops.a.values@, obj2); lemma_flat_is_flat(ops.b.values@, obj2);
+            lemma_flat_unique(lhs.src_type(), flat(ops.a.values@, obj2), ops.a.values@, obj2);
+            lemma_flat_unique(rhs.tgt_type(), flat(ops.b.values@, obj2), ops.b.values@, obj2);''')])
+
+# ---------------------------------------------------------------------------------------------
+# The optic as a functor: `impl Functor for Optic` of /repo.  The two method bodies are the functions proved above
+# (glue: trusted, as for Identity); with it the generic define_map_arrow applies to the optic, which gives the first
+# clause of C14 for EVERY diagram f.
+# ---------------------------------------------------------------------------------------------
+raw(r'''
+impl<F: Functor<O1, A1, O2, A2>, R: Functor<O1, A1, O2, A2>, O1: Clone, A1: Clone, O2: Clone + PartialEq, A2: Clone> Functor<O1, A1, O2, A2> for Optic<F, R, O1, A1, O2, A2> {
+    open spec fn obj(&self, o: O1) -> Seq<O2> { self.fwd.obj(o) + self.rev.obj(o) }
+    open spec fn ops_bound(&self, ops: Operations<O1, A1>) -> nat { 0xC00_0000 }
+    open spec fn ops_post(&self, ops: Operations<O1, A1>, r: OpenHypergraph<O2, A2>) -> bool { true }
+    open spec fn ops_src(&self, ops: Operations<O1, A1>) -> Seq<O2> { flat(ops.a.values@, |o: O1| self.fwd.obj(o) + self.rev.obj(o)) }
+    open spec fn ops_tgt(&self, ops: Operations<O1, A1>) -> Seq<O2> { flat(ops.b.values@, |o: O1| self.fwd.obj(o) + self.rev.obj(o)) }
+    open spec fn obj_pre(&self, a: Seq<O1>) -> bool {
+        &&& lawful_clone::<O2>() && small(a.len()) && self.fwd.obj_pre(a) && self.rev.obj_pre(a)
+        &&& small(total(flat_sizes(a, |o: O1| self.fwd.obj(o))) as nat) && small(total(flat_sizes(a, |o: O1| self.rev.obj(o))) as nat)
+    }
+    open spec fn ops_pre(&self, ops: Operations<O1, A1>) -> bool {
+        optic_pre(*self, ops) && lawful_clone::<O2>() && lawful_clone::<A2>() && lawful_eq::<O2>()
+    }
+    #[verifier::external_body]
+    fn map_object(&self, a: &SemifiniteFunction<O1>) -> (r: IndexedCoproduct<SemifiniteFunction<O2>>) { optic_map_object(self, a) }
+    #[verifier::external_body]
+    fn map_operations(&self, ops: Operations<O1, A1>) -> (r: OpenHypergraph<O2, A2>) { optic_map_operations(self, ops) }
+}
+''', tag='T2-glue:Optic')
+
+fn(OP, 'map_arrow', trait='Functor', self_ty='Optic', status='P', props=['C14', 'C05'], rename='optic_map_arrow',
+   rules={'self_rename': ['this', '&Optic<F, R, O1, A1, O2, A2>']},
+   generics_add=['F: Functor<O1, A1, O2, A2>, R: Functor<O1, A1, O2, A2>, O1: Clone + PartialEq, A1: Clone, O2: Clone + PartialEq, A2: Clone'],
+   requires=['f.wf()', 'lawful_clone::<O1>()', 'lawful_clone::<A1>()', 'lawful_clone::<O2>()', 'lawful_clone::<A2>()', 'lawful_eq::<O2>()',
+             # the three ingredients are typed as lenses with residual for the operations of f, and sizes are small
+             'forall|ops: Operations<O1, A1>| #[trigger] is_ops_of(*f, ops) ==> optic_pre(*this, ops)',
+             'this.fwd.obj_pre(f.h.w@)', 'this.rev.obj_pre(f.h.w@)',
+             'small(total(flat_sizes(f.h.w@, |o: O1| this.fwd.obj(o))) as nat)', 'small(total(flat_sizes(f.h.w@, |o: O1| this.rev.obj(o))) as nat)',
+             'dma_sizes(*f, |o: O1| this.fwd.obj(o) + this.rev.obj(o))'],
+   ensures=[('C14.optic-map_arrow-wf', 'r.wf()'),
+            ('C14.optic-map_arrow-type', '''is_flat_image(r.src_type(), f.src_type(), |o: O1| this.fwd.obj(o) + this.rev.obj(o))
+                && is_flat_image(r.tgt_type(), f.tgt_type(), |o: O1| this.fwd.obj(o) + this.rev.obj(o))''')],
+   proofs=[('start', '''let obj = |o: O1| <Optic<F, R, O1, A1, O2, A2> as Functor<O1, A1, O2, A2>>::obj(this, o);
+            let obj2 = |o: O1| this.fwd.obj(o) + this.rev.obj(o);
+            assert(obj =~= obj2);
+            assert(dma_sizes(*f, obj));
+            assert forall|ops: Operations<O1, A1>| #[trigger] is_ops_of(*f, ops) implies strict_typed(*this, ops) by {
+                assert(optic_pre(*this, ops));
+                assert forall|p: int| 0 <= p < ops.a.values@.len() implies obj2(#[trigger] ops.a.values@[p]).len() <= usize::MAX by { }
+                assert forall|p: int| 0 <= p < ops.b.values@.len() implies obj2(#[trigger] ops.b.values@[p]).len() <= usize::MAX by { }
+                lemma_flat_is_flat(ops.a.values@, obj2); lemma_flat_is_flat(ops.b.values@, obj2);
+            }''')])
+
+raw(r'''
+/// optic_pre is satisfiable: the optic of two identity functors with an empty residual, on the empty batch of operations
+pub proof fn lemma_optic_pre_witness<O: Clone + PartialEq, A: Clone>(this: Optic<Identity, Identity, O, A, O, A>, ops: Operations<O, A>)
+    requires ops.wf(), ops.x@.len() == 0,
+        forall|m: IndexedCoproduct<SemifiniteFunction<O>>| #[trigger] this.residual.res_post(ops, m) ==> m.wf() && m.sources.table@.len() == 0,
+    ensures optic_pre(this, ops)
+{
+    let fobj = |o: O| <Identity as Functor<O, A, O, A>>::obj(&this.fwd, o); let robj = |o: O| <Identity as Functor<O, A, O, A>>::obj(&this.rev, o);
+    let av = ops.a.values@; let bv = ops.b.values@; let bs = ops.b.sources.table@;
+    assert(av.len() == 0 && bv.len() == 0);
+    assert(total(flat_sizes(av, fobj)) == 0 && total(flat_sizes(av, robj)) == 0 && total(flat_sizes(bv, fobj)) == 0 && total(flat_sizes(bv, robj)) == 0);
+    assert forall|m: IndexedCoproduct<SemifiniteFunction<O>>| #[trigger] this.residual.res_post(ops, m) implies m.wf() && m.sources.table@.len() == ops.x@.len() && tiny(m.values@.len()) by {
+        assert(total(m.sources.table@) == 0);
+    }
+    assert forall|o1: Operations<O, A>| #[trigger] ops_same(o1, ops) implies tiny(<Identity as Functor<O, A, O, A>>::ops_bound(&this.fwd, o1)) && tiny(<Identity as Functor<O, A, O, A>>::ops_bound(&this.rev, o1)) && <Identity as Functor<O, A, O, A>>::ops_pre(&this.fwd, o1) && <Identity as Functor<O, A, O, A>>::ops_pre(&this.rev, o1)
+            && is_flat_image(<Identity as Functor<O, A, O, A>>::ops_src(&this.fwd, o1), av, fobj) && is_flat_image(<Identity as Functor<O, A, O, A>>::ops_tgt(&this.rev, o1), av, robj) by {
+        assert(o1.a.values@.len() == 0 && o1.b.values@.len() == 0 && o1.x@.len() == 0);
+    }
+    assert forall|o1: Operations<O, A>, m: IndexedCoproduct<SemifiniteFunction<O>>, fbv: Seq<O>, rbv: Seq<O>|
+            #[trigger] ops_same(o1, ops) && #[trigger] this.residual.res_post(ops, m) && #[trigger] is_flat_image(fbv, bv, fobj) && #[trigger] is_flat_image(rbv, bv, robj) implies
+               is_interleaved(<Identity as Functor<O, A, O, A>>::ops_tgt(&this.fwd, o1), op_sizes(bs, flat_sizes(bv, fobj)), fbv, m.sources.table@, m.values@)
+            && is_interleaved(<Identity as Functor<O, A, O, A>>::ops_src(&this.rev, o1), m.sources.table@, m.values@, op_sizes(bs, flat_sizes(bv, robj)), rbv) by {
+        assert(o1.a.values@.len() == 0 && o1.b.values@.len() == 0);
+        assert(total(m.sources.table@) == 0);
+        assert(fbv.len() == 0 && rbv.len() == 0);
+        let s2 = Seq::new(0 as nat, |k: int| 0usize);
+        assert(total(s2) == 0);
+    }
+}
+''')
